@@ -95,3 +95,17 @@ package clusters
 //@   trusted "result is serverNamesOf(c): [c.Cluster] ++ lower-cased server names of the stored secure-serving config"
 //@   pure
 //@   ensures result == serverNamesOf(c) && len(result) >= 1 && result[0] == c.Cluster
+
+//@ const pickedEP = unbox(smget(&result.Endpoints.data, box(ep)), "*EndpointInfo")
+
+//@ func (*ClusterInfo).PickOne props C12
+//@   modifies smap(&c.loadbalancer), cells("uint64")
+//@   ensures [ready_member] result1 == nil ==> result != nil && !result.status.Disabled && result.status.Healthy && exists ep string :: {smhas(&c.Endpoints.data, box(ep))} smhas(&c.Endpoints.data, box(ep)) && result == unbox(smget(&c.Endpoints.data, box(ep)), "*EndpointInfo")
+//@   ensures [none_nil] result1 != nil ==> result == nil
+
+//@ func (*manager).ClientFor props C12
+//@   modifies *
+//@   ensures [own_cluster] result2 == nil ==> old(smhas(MC, box(toLower(name)))) && result == old(unbox(smget(MC, box(toLower(name))), "*ClusterInfo"))
+//@   ensures [ready_endpoint] result2 == nil ==> exists ep string :: {smhas(&result.Endpoints.data, box(ep))} smhas(&result.Endpoints.data, box(ep)) && !pickedEP.status.Disabled && pickedEP.status.Healthy && result1 == pickedEP.clientset
+//@   ensures [unknown_cluster] !old(smhas(MC, box(toLower(name)))) ==> result2 != nil && result1 == nil && result == nil
+//@   ensures [no_ready] result2 != nil ==> result1 == nil
